@@ -191,6 +191,44 @@ theorem capacity_error_only_if_full {cfg : TrackInit.Cfg} {s : TrackInit.State}
     have := this.2.over
     omega
 
+/-- ★ capacity_checked_first, boundary case stated as an equivalence: the end-of-step action
+    reports the capacity error IF AND ONLY IF queued + new secondaries EXCEEDS the capacity; at
+    requirement = capacity (and below) it succeeds with all guarantees of `EFSOk`.  So an error
+    at requirement ≤ capacity, or success at requirement > capacity, contradicts the model
+    (impl-side oracle keys capacity-error-without-overflow / capacity-overflow-not-detected). -/
+theorem capacity_error_iff {cfg : TrackInit.Cfg} {s : TrackInit.State}
+    (hL : TrackInit.Lens cfg s) (hC : TrackInit.Core s s.c.numInitializers)
+    (hend : ∀ x ∈ s.slots, x.endOk) :
+    (∃ e s', TrackInit.extendFromSecondaries s = .error (e, s')) ↔
+      s.c.numInitializers + TrackInit.prefixQ cfg.order s.slots cfg.slots > cfg.capacity := by
+  constructor
+  · intro ⟨e, s', h⟩
+    exact (capacity_checked_first hL hC hend e s' h).2.2.2.2.2.1
+  · intro hover
+    cases h : TrackInit.extendFromSecondaries s with
+    | error p => exact ⟨p.1, p.2, rfl⟩
+    | ok s' =>
+      have := TrackInit.efs_spec hL hC hend
+      rw [h] at this
+      have h1 := this.ninit
+      have h2 := this.core.ni_le
+      rw [this.lens.inits] at h2
+      omega
+
+/-- the same equivalence for `ExtendFromPrimariesAction::insert`: the capacity error is raised
+    if and only if queued + primaries exceeds the capacity (then nothing is touched) -/
+theorem insert_capacity_error_iff (ps : List TrackInit.Primary) (s : TrackInit.State) :
+    TrackInit.insertPrimaries ps s = .error .capacity ↔
+      ps.length + s.c.numInitializers > s.cfg.capacity := by
+  unfold TrackInit.insertPrimaries
+  constructor
+  · intro h
+    split at h
+    · omega
+    · split at h <;> cases h
+  · intro h
+    rw [if_pos (by omega)]
+
 /-- ★ C16.5 reset_reestablishes_invariant: after `CoreState::reset` of the state left by the
     failed step the C02 invariant holds with all slots inactive, so later events run as from a
     fresh state. -/
